@@ -9,6 +9,9 @@ PPTX = X + "ms_modern/pptx_extractor.py"
 XLSX = X + "ms_modern/xlsx_extractor.py"
 EPUB = X + "epub_extractor.py"
 
+PPTXF = "sharepoint2text/parsing/extractors/ms_modern/pptx_extractor.py"
+ODTF = "sharepoint2text/parsing/extractors/open_office/odt_extractor.py"
+ODSF = "sharepoint2text/parsing/extractors/open_office/ods_extractor.py"
 MUTANTS = [
     M("docx-rows-direct-children", DOCX, "            for tr in _iter_wrapped(tbl, (W_TR,)):\n                row_data: list[str] = []", "            for tr in tbl.findall(W_TR):\n                row_data: list[str] = []", "C13-WALK", "lost"),
     M("docx-rows-all-descendants", DOCX, "            for tr in _iter_wrapped(tbl, (W_TR,)):\n                row_data: list[str] = []", "            for tr in tbl.iter(W_TR):\n                row_data: list[str] = []", "C13-WALK", "duplicated"),
@@ -23,7 +26,7 @@ MUTANTS = [
     M("odt-cell-iterator-enters-paragraphs", ODT, "        if child.tag in (_TEXT_P_TAG, _TEXT_H_TAG):\n            yield child\n        else:\n            yield from _iter_cell_paragraphs(child)", "        if child.tag in (_TEXT_P_TAG, _TEXT_H_TAG):\n            yield child\n        yield from _iter_cell_paragraphs(child)", "C13-WALK"),
     M("odt-only-top-level-tables", ODT, "    for table in body.iter(_TABLE_TABLE_TAG):\n        table_data", "    for table in body.findall(_TABLE_TABLE_TAG):\n        table_data", "C13-WALK", "lost"),
     M("odp-header-rows-dropped", ODP, "    rows.extend(table_elem.findall(\"table:table-header-rows/table:table-row\", NS))\n", "", "C13-WALK", "lost"),
-    M("odp-cells-covered-only", ODP, "        for cell in row.findall(\"table:table-cell\", NS):", "        for cell in row.findall(\"table:covered-table-cell\", NS):", "C13-WALK", "lost"),
+    M("odp-cells-covered-only", ODP, "            if cell.tag != _TABLE_CELL_TAG:\n                continue\n            cell_texts = [_get_text_recursive(p) for p in _iter_paragraphs(cell)]", "            if cell.tag != _TABLE_COVERED_CELL_TAG:\n                continue\n            cell_texts = [_get_text_recursive(p) for p in _iter_paragraphs(cell)]", "C13-WALK", "lost"),
     M("pptx-first-cell-only", PPTX, "        for tc in tr.findall(A_TC):\n            tx_body = tc.find(A_TXBODY)", "        for tc in [tr.find(A_TC)]:\n            tx_body = tc.find(A_TXBODY)", "C13-WALK"),
     M("pptx-rows-all-descendants-of-frame", PPTX, "    for tr in tbl.findall(A_TR):\n        row_data: list[str] = []", "    for tr in tbl.findall(A_TR) + tbl.findall(A_TR):\n        row_data: list[str] = []", "C13-WALK"),
     M("html-nested-tables-not-recorded", X + "html_extractor.py", "        for nested in self._nested_tables(table_node):\n            self._append_table(nested)\n", "", "C13-WALK", "lost"),
@@ -35,6 +38,8 @@ MUTANTS = [
     M("epub-non-linear-skipped", EPUB, "        for itemref in spine_elem.findall(\"opf:itemref\", NS):\n            idref = itemref.get(\"idref\", \"\")\n            if idref:", "        for itemref in spine_elem.findall(\"opf:itemref\", NS):\n            idref = itemref.get(\"idref\", \"\")\n            if idref and itemref.get(\"linear\", \"yes\") != \"no\":", "C13-SPINE"),
     M("epub-skip-by-continue", EPUB, "        for itemref in spine_elem.findall(\"opf:itemref\", NS):\n            idref = itemref.get(\"idref\", \"\")\n            if idref:", "        for itemref in spine_elem.findall(\"opf:itemref\", NS):\n            idref = itemref.get(\"idref\", \"\")\n            if itemref.get(\"linear\") == \"no\":\n                continue\n            if idref:", "C13-SPINE"),
     M("xlsx-table-from-record-dicts", D, "    def get_table(self) -> list[list[typing.Any]]:\n        return self.data\n\n    def get_dim(self) -> TableDim:\n        rows = len(self.data)\n        columns = max((len(row) for row in self.data), default=0)\n        return TableDim(rows=rows, columns=columns)\n\n\n@dataclass\nclass XlsxContent", "    records: Dict[str, typing.Any] = field(default_factory=dict)\n\n    def get_table(self) -> list[list[typing.Any]]:\n        return [list(self.records.keys())] + [list(self.records.values())]\n\n    def get_dim(self) -> TableDim:\n        rows = len(self.data)\n        columns = max((len(row) for row in self.data), default=0)\n        return TableDim(rows=rows, columns=columns)\n\n\n@dataclass\nclass XlsxContent", "C13-KEY"),
+    M("ods-rows-direct-children-only", ODSF, "    for row in _iter_sheet_rows(table):", "    for row in table.findall(\"table:table-row\", NS):", "C13-ODS"),
+    M("ods-covered-cells-skipped", ODSF, "            if cell.tag not in (_TABLE_CELL_TAG, _TABLE_COVERED_CELL_TAG):\n                continue", "            if cell.tag != _TABLE_CELL_TAG:\n                continue", "C13-ODS"),
 ]
 
 TWINS = [
@@ -42,6 +47,9 @@ TWINS = [
     T("docx-cell-comprehension-as-loop", DOCX, "                    cell_paragraphs = [\n                        _extract_paragraph_content(p, include_formulas=False)\n                        for p in _iter_wrapped(tc, (W_P, W_TBL))\n                        if p.tag == W_P\n                    ]", "                    cell_paragraphs = []\n                    for p in _iter_wrapped(tc, (W_P, W_TBL)):\n                        if p.tag == W_P:\n                            cell_paragraphs.append(_extract_paragraph_content(p, include_formulas=False))"),
     T("odt-row-iterator-not-equal-form", ODT, "        if child.tag == _TABLE_ROW_TAG:\n            yield child\n        else:\n            yield from _iter_table_rows(child)", "        if child.tag != _TABLE_ROW_TAG:\n            yield from _iter_table_rows(child)\n        else:\n            yield child"),
     T("epub-idref-test-explicit", EPUB, "        for itemref in spine_elem.findall(\"opf:itemref\", NS):\n            idref = itemref.get(\"idref\", \"\")\n            if idref:", "        for itemref in spine_elem.findall(\"opf:itemref\", NS):\n            idref = itemref.get(\"idref\", \"\")\n            if idref != \"\":"),
+    T("pptx-cells-by-child-loop-and-tag-test", PPTXF, "        for tc in tr.findall(A_TC):\n            tx_body = tc.find(A_TXBODY)\n", "        for tc in tr:\n            if tc.tag != A_TC:\n                continue\n            tx_body = tc.find(A_TXBODY)\n"),
+    T("pptx-rows-by-child-loop-and-tag-test", PPTXF, "    for tr in tbl.findall(A_TR):\n        row_data: list[str] = []\n", "    for tr in tbl:\n        if tr.tag != A_TR:\n            continue\n        row_data: list[str] = []\n"),
+    T("odt-covered-cell-branch-after-cell-test", ODTF, "                if cell.tag == _TABLE_COVERED_CELL_TAG:\n                    row_data.append(\"\")\n                    continue\n                if cell.tag != _TABLE_CELL_TAG:\n                    continue\n", "                if cell.tag not in (_TABLE_CELL_TAG, _TABLE_COVERED_CELL_TAG):\n                    continue\n                if cell.tag == _TABLE_COVERED_CELL_TAG:\n                    row_data.append(\"\")\n                    continue\n"),
 ]
 
 # --- seeded changes kept under /verif/seeded (sub-agents saw only the property text); each must be reported by the named rule
